@@ -86,12 +86,13 @@ class HistoryRunner:
             if E.outcome_key(shared) != E.outcome_key(fresh):
                 viol.append(('reused-chart-differs-from-fresh',
                              f'run {n}: reused {E.outcome_key(shared)} fresh {E.outcome_key(fresh)}'))
-            elif shared.outcome[0] == 'error' and (O.classify_error(shared.outcome[1], shared)
-                                                   != O.classify_error(fresh.outcome[1], fresh)):
+            elif shared.outcome[0] == 'error' and len(refres['causes']) == 1 and not refres['ambiguous'] and (
+                    O.classify_error(shared.outcome[1], shared) != O.classify_error(fresh.outcome[1], fresh)):
+                # with several admissible causes the first failure to be noticed wins (any member is correct)
                 viol.append(('reused-chart-differs-from-fresh',
                              f'run {n}: cause {O.classify_error(shared.outcome[1], shared)} vs '
                              f'{O.classify_error(fresh.outcome[1], fresh)}'))
-            elif exec_summary(shared) != exec_summary(fresh):
+            elif refres['ok'] and exec_summary(shared) != exec_summary(fresh):
                 viol.append(('reused-chart-executes-differently', f'run {n}: body invocations differ from a fresh chart'))
             viol += [(s, f'run {n}: {d}') for s, d in O.oracle_outcome(shared, refres)]
             if not refres['ok']:
